@@ -3099,6 +3099,9 @@ class _Spelling(ast.NodeTransformer):
 
     def visit_Call(self, n):
         self.generic_visit(n)
+        if isinstance(n.func, ast.Name) and n.func.id == "dict" and not n.args and n.keywords and all(k.arg is not None for k in n.keywords):
+            # dict(a=1, b=2) is {"a": 1, "b": 2}
+            return ast.copy_location(ast.Dict(keys=[ast.Constant(value=k.arg) for k in n.keywords], values=[k.value for k in n.keywords]), n)
         if isinstance(n.func, ast.Attribute) and n.func.attr == "transpose" and isinstance(n.func.value, ast.Name) and n.func.value.id in self.np \
                 and len(n.args) == 1 and not n.keywords and not isinstance(n.args[0], ast.Starred):
             return ast.copy_location(ast.Attribute(value=n.args[0], attr="T", ctx=ast.Load()), n)
